@@ -43,7 +43,8 @@ const (
 	helloPattern      = `(?is)(<(\w+:)?hello.*</(\w+:)?hello>)`
 	capabilityPattern = `(?i)(?:<(?:\w+:)?capability>)(.*?)(?:</(?:\w+:)?capability>)`
 
-	messageIDPattern      = `(?i)(?:message-id="(\d+)")`
+	// the id of a reply: only looked for in an rpc-reply start tag, an echoed rpc carries a message-id too
+	messageIDPattern      = `(?i)<(?:\w+:)?rpc-reply[^>]*?message-id="(\d+)"`
 	subscriptionIDPattern = `(?i)<subscription-id.*>(\d+)</subscription-id>`
 
 	subscriptionResultPattern = `(?i)<subscription-result.*>notif-bis:(.+)</subscription-result>`
